@@ -289,7 +289,16 @@ func mutate(t *rapid.T, s string, big bool) (string, string) {
 	pos := func() int {
 		return max(rapid.IntRange(0, len(s)).Draw(t, "pos"), rapid.IntRange(0, len(s)).Draw(t, "pos2"))
 	}
-	switch k := rapid.IntRange(0, 18).Draw(t, "mk"); k {
+	switch k := rapid.IntRange(0, 19).Draw(t, "mk"); k {
+	case 19: // a $GENERATE line whose template is made of hostile pieces (see gentpl_test.go)
+		var c tplCase
+		genTplPieces(t, &c)
+		if c.steps() > 8 {
+			c.Stop = c.Start + 2*c.Step
+		}
+		line := fmt.Sprintf("$GENERATE %d-%d/%d %s\n", c.Start, c.Stop, c.Step, c.Tpl)
+		i := lineStart(t, s)
+		return s[:i] + line + s[i:], fmt.Sprintf("generate-template %d octets", len(line))
 	case 0: // delete a byte
 		if len(s) == 0 {
 			return s, "noop"
@@ -542,6 +551,30 @@ func genHostile(t *rapid.T) hostileCase {
 			c.Files[k] = cutLongGenerate(txt)
 		}
 		c.Mutations = append(c.Mutations, "cut-long-generate")
+	}
+	for k, txt := range c.Files {
+		if capped := capExpansion(txt); capped != txt {
+			c.Files[k] = capped
+			c.Mutations = append(c.Mutations, "expansion-capped in "+k)
+		}
+	}
+	if pbt.Known(kGenEscape) && textHasEscapeChain(c.Files) {
+		pbt.Excluded(kGenEscape)
+		for k, txt := range c.Files {
+			if rest := afterGenerate(txt); escapeChain(rest) > maxEscapeChain {
+				c.Files[k] = txt[:len(txt)-len(rest)] + breakChains(rest)
+			}
+		}
+		c.Mutations = append(c.Mutations, "escape-chains-broken")
+	}
+	if pbt.Known(kGenRequote) && textRequotesNewline(c.Files) {
+		pbt.Excluded(kGenRequote)
+		for k, txt := range c.Files {
+			if rest := afterGenerate(txt); strings.Contains(rest, "\\\"") {
+				c.Files[k] = txt[:len(txt)-len(rest)] + strings.ReplaceAll(rest, "\\\"", "\"")
+			}
+		}
+		c.Mutations = append(c.Mutations, "escaped-quotes-unescaped")
 	}
 	if pbt.Known(kGenEOF) && endsInBareGenerate(c.Files) {
 		pbt.Excluded(kGenEOF)
@@ -1319,6 +1352,15 @@ func faultText(c typeFaultCase) (string, bool) {
 }
 
 func checkTypeFault(c typeFaultCase) error {
+	if c.Fault == "quote-glued" {
+		text, ok := gluedFaultText(c)
+		if !ok {
+			pbt.Note(nil, false, "invalid-case")
+			return nil
+		}
+		pbt.Note([]byte(text), true, "type-fault:"+c.Sample, "fault:quote-glued", fmt.Sprintf("quote-glued:blank-behind=%v", c.Var == 0))
+		return evalTypeFault(c, text)
+	}
 	if c.Fault == "sub-token" {
 		text, ok := subFaultText(c)
 		if !ok {
@@ -1418,6 +1460,7 @@ func subFaultText(c typeFaultCase) (string, bool) {
 }
 
 func eachTypeFault(emit func(typeFaultCase)) {
+	eachGlued(emit)
 	for _, sm := range zm.Samples {
 		for ti, tok := range sm.Tokens {
 			for vi := range subTokenVariants(tok) {
